@@ -74,23 +74,27 @@ def _short(a):
 
 
 class State:
-    __slots__ = ("cells", "facts", "_from", "frozen")
+    __slots__ = ("cells", "facts", "_from", "frozen", "neq")
 
-    def __init__(self, cells=None, facts=None, frozen=None):
+    def __init__(self, cells=None, facts=None, frozen=None, neq=None):
         self.cells = dict(cells or {})
         self.facts = dict(facts or {})     # LF key -> upper bound c  (sum <= c)
         self._from = None
         # values loaded from a cell earlier in the current block and overwritten since (`a[i++]`): load inst id -> LF in today's atoms
         self.frozen = dict(frozen or {})
+        # constants a cell is known to differ from although they lie inside its interval (`if (x == 0) .. else if (x < 0) .. else`):
+        # applied whenever a later refinement moves a bound onto one of them
+        self.neq = dict(neq or {})
 
     def copy(self):
-        c = State(self.cells, self.facts, self.frozen)
+        c = State(self.cells, self.facts, self.frozen, self.neq)
         c._from = self._from
         return c
 
     def sig(self):
         return (tuple(sorted(self.cells.items(), key=lambda kv: str(kv[0]))), tuple(sorted(self.facts.items(), key=lambda kv: str(kv[0]))),
-                tuple(sorted((k, v.k, v.key()) for k, v in self.frozen.items())) if self.frozen else ())
+                tuple(sorted((k, v.k, v.key()) for k, v in self.frozen.items())) if self.frozen else (),
+                tuple(sorted((str(k), tuple(sorted(v))) for k, v in self.neq.items())) if self.neq else ())
 
 
 def join(a, b):
@@ -102,7 +106,8 @@ def join(a, b):
     for k, v in a.facts.items():
         if k in b.facts:
             f[k] = max(v, b.facts[k])
-    return State(c, f)
+    nq = {k: (a.neq[k] & b.neq[k]) for k in a.neq if k in b.neq and (a.neq[k] & b.neq[k])}
+    return State(c, f, None, nq)
 
 
 class FunctionAnalysis:
@@ -519,6 +524,7 @@ class FunctionAnalysis:
                 newfacts[fk] = ub
             st.facts = newfacts
             st.cells[c] = v
+            st.neq.pop(c, None)
             # equality with another linear form gives two facts  cell - l <= 0  and  l - cell <= 0
             if l is not None and atom not in l.t and len(l.t) <= 3 and c[0] == "a" and v[0] >= rng[0] and v[1] <= rng[1]:
                 e = LF(0, {atom: 1}).add(l, -1)
@@ -681,6 +687,11 @@ class FunctionAnalysis:
                     self._restrict(a, (ia[0] + 1, ia[1]), st)
                 elif ia[1] == ib[0]:
                     self._restrict(a, (ia[0], ia[1] - 1), st)
+                elif len(a.t) == 1 and ia[0] < ib[0] < ia[1]:
+                    (atom_, c_), = a.t.items()
+                    if atom_[0] == "cell" and c_ == 1:
+                        cell_ = atom_[1:]
+                        st.neq[cell_] = frozenset(st.neq.get(cell_, frozenset()) | {ib[0] - a.k})
             return st
         if pred in ("sgt", "sge"):
             a, b, ia, ib = b, a, ib, ia
@@ -713,6 +724,15 @@ class FunctionAnalysis:
                     lo, hi = -hi, -lo
                 m = meet(cur, (lo, hi))
                 if m is not None:
+                    ex = st.neq.get(cell)
+                    if ex:
+                        lo_, hi_ = m
+                        while lo_ in ex and lo_ <= hi_:
+                            lo_ += 1
+                        while hi_ in ex and hi_ >= lo_:
+                            hi_ -= 1
+                        if lo_ <= hi_:
+                            m = (lo_, hi_)
                     st.cells[cell] = m
             elif atom[0] in ("expr", "arg") and c == 1:
                 # bound on an opaque atom: keep as a fact  atom <= hi  and  -atom <= -lo
